@@ -61,6 +61,27 @@ def st_program(draw, max_points=6, max_edits=30, samplers=True, forks=False):
     )
 
 
+class _InjectedFault(ValueError):
+    pass
+
+
+class _FaultyGenerator(np.random.Generator):
+    """default_rng(seed) whose `at`-th multinomial call fails the way numpy does for NaN weights (ValueError)"""
+
+    def __init__(self, seed, at):
+        super().__init__(np.random.PCG64(seed))
+        self._at = at
+        self._n = 0
+        self.fired = False
+
+    def multinomial(self, n, pvals, size=None):
+        self._n += 1
+        if self._n - 1 == self._at:
+            self.fired = True
+            raise _InjectedFault("pvals < 0, pvals > 1 or pvals contains NaNs (injected)")
+        return super().multinomial(n, pvals, size=size)
+
+
 class Model:
     """clone ids are stable ints; names in the real tree are resolved by data content"""
 
@@ -348,21 +369,44 @@ class Machine:
         if par is None:
             self.classes.add("graft-under-root")
 
+        partial = self.model.copy()
+        for x in removed:
+            del partial.blocks[x]
+            del partial.parent[x]
+        par2 = targets[(b + 1 + c) % len(targets)]
+        ghost_box = []
+
         def fn(t):
             pruned = t.copy()
             sroot = name_of(pruned, self.model, sub)
             parent_name = None if par is None else name_of(pruned, self.model, par)
+            parent2_name = None if par2 is None else name_of(pruned, self.model, par2)
             subtree = pruned.get_subtree(sroot)
             pruned.remove_subtree(subtree)
+            if self.probe is not None:
+                self.probe(self, pruned, partial, "after-remove_subtree")
             if set(subtree.nodes) & set(pruned.nodes):
                 self.classes.add("graft-with-label-clash")
             new = pruned.copy()
             new.add_subtree(subtree, parent=parent_name)
             new.update()
+            if t is self.tree and par2 != par:
+                # the prune-regraft sampler grafts the SAME subtree object into every candidate tree
+                other = pruned.copy()
+                other.add_subtree(subtree, parent=parent2_name)
+                other.update()
+                ghost_box.append(other)
             return new
 
         self._both(fn)
         self.model.parent[sub] = par
+        if ghost_box:
+            gm = self.model.copy()
+            gm.parent[sub] = par2
+            self.ghosts.append(("second-candidate-of-the-same-regraft", ghost_box[0], None, gm))
+            if len(self.ghosts) > 3:
+                self.ghosts.pop(0)
+            self.classes.add("ghost-restores")
         self.classes.add("prune")
         if self.twin is not None:
             pass
@@ -393,6 +437,11 @@ class Machine:
                 blocks[j].append(p)
         parent = [int(r.integers(-1, j)) for j in range(len(blocks))]
         fm = MTree(blocks, parent, outs)
+        ctx_model = self.model.copy()
+        for x in region:
+            del ctx_model.blocks[x]
+            del ctx_model.parent[x]
+        ctx_model.outliers = []
 
         def fn(t):
             t = t.copy()
@@ -407,7 +456,12 @@ class Machine:
             got = sorted(dp.idx for dp in subtree.data)
             if got != sorted(pts):
                 raise Violation("subtree-cycle/data", "extracted subtree holds data %r, model says %r" % (got, sorted(pts)), dict(op="subtree_cycle"))
+            if self.probe is not None:
+                self.probe(self, t, ctx_model, "after-remove_subtree")
             forest = to_tree_grid(fm, self.data, self.grid)
+            if c % 2 == 1:
+                forest.relabel_nodes()  # any construction history of the replacement is legitimate
+                self.classes.add("graft-relabelled-forest")
             if set(forest.nodes) & set(t.nodes):
                 self.classes.add("graft-with-label-clash")
             new = t.copy()
@@ -554,7 +608,8 @@ class Machine:
         out = self.case.get("outlier_prior", 0.0) > 0
         if self.model.outliers and not out:
             return False
-        rng = np.random.default_rng(b)
+        fault_at = (c // 3) % 9 if (c // 3) % 2 == 1 else None
+        rng = np.random.default_rng(b) if fault_at is None else _FaultyGenerator(b, fault_at)
         kernel = kernel_class(self.case.get("proposal", "fully"))(self.td, rng, outlier_proposal_prob=0.1 if out else 0.0, perm_dist=self.perm)
         N = 2 + c % 3
         if kind == "pg":
@@ -570,7 +625,14 @@ class Machine:
         before = self.model.all_points()
         gen.clear_caches()
         t = self.tree.copy()
-        new = s.sample_tree(t)
+        try:
+            new = s.sample_tree(t)
+        except _InjectedFault:
+            # a draw failed inside the sampler and the failure was reported to the caller: no tree was returned
+            self.classes.add("sampler:injected-draw-failure-propagated")
+            return False
+        if fault_at is not None and getattr(rng, "fired", False):
+            self.classes.add("sampler:returned-despite-injected-draw-failure")
         got = sorted(dp.idx for dp in new.data)
         if got != before:
             raise Violation("sampler/%s/data" % kind, "%s sampler was given data %r and returned a tree over %r" % (kind, before, got), dict(op="sampler", kind=kind))
